@@ -84,4 +84,12 @@ theorem indep_commute_bar_aux (s : State) (t1 t2 : Base)
     intro m
     by_cases hx1 : m = t1.bar <;> by_cases hx2 : m = t2.bar <;> simp [upd, hx1, hx2, hm, hm']
 
+theorem sem_inv_preserved_all_aux (s : State) (t : Base) (h : isSemKind t.kind = true) (hinv : ∀ m, (s.sem m).inv) :
+    ∀ m, ((exec s t).sem m).inv := by
+  intro m
+  rw [exec_sem _ _ h]
+  by_cases hx : m = t.sem
+  · simp only [hx, upd_same]; exact sem_inv_preserved _ _ _ (hinv _)
+  · simp only [upd_other _ _ _ _ hx]; exact hinv m
+
 end SgVerif.C39
